@@ -22,6 +22,9 @@ os.environ.setdefault("OPENBLAS_NUM_THREADS", "1")
 import warnings  # noqa: E402
 
 warnings.filterwarnings("ignore")
+import logging  # noqa: E402
+
+logging.disable(logging.WARNING)
 from symx import runner  # noqa: E402
 
 if __name__ == "__main__":
